@@ -110,6 +110,12 @@ def centres(draw, n, p_same=0.35, halves=(0.5, 2.0, 5.0, 15.0)):
             if mode < int(100 * p_same):
                 out.append(list(base))
                 continue
+            if mode >= 97:  # almost coincident with an earlier centre
+                c = list(base)
+                ax = draw(st.integers(0, 2))
+                c[ax] = c[ax] + draw(st.sampled_from([1e-9, 1e-7, 1e-6, 1e-5, 1e-4, -1e-6]))
+                out.append(c)
+                continue
             if mode < int(100 * p_same) + 25:
                 c = list(base)  # differs from an earlier centre in one or two coordinates only
                 for ax in draw(st.sampled_from([(0,), (1,), (2,), (0, 1), (0, 2), (1, 2)])):
@@ -139,9 +145,14 @@ def points_near(draw, cents, nmin=1, nmax=6, far=100.0):
     n = draw(st.integers(nmin, nmax))
     out = []
     for _ in range(n):
-        mode = draw(st.integers(0, 5))
+        mode = draw(st.integers(0, 6))
         base = cents[draw(st.integers(0, len(cents) - 1))]
-        if mode == 0:
+        if mode == 6:  # almost on a centre (tolerance-based shortcuts must not snap it onto the centre)
+            p = list(base)
+            ax = draw(st.integers(0, 2))
+            p[ax] = p[ax] + draw(st.sampled_from([1e-10, 1e-8, 1e-6, 1e-5, 1e-4, -1e-7, -1e-5]))
+            out.append(p)
+        elif mode == 0:
             out.append(list(base))
         elif mode == 1:
             p = list(base)
